@@ -446,12 +446,14 @@ class ScheduleNTasksInTimeIntervals(TaskConstraint):
             # for this task, the logic expression is that any of its start or end must be
             # between two consecutive intervals
             bools_for_this_task = []
+            lies_in_an_interval = []
             for time_interval in self.list_of_time_intervals:
                 task_in_time_interval = z3.Bool(
                     f"InTimeIntervalTask_{task.name}_{uuid.uuid4().int}"
                 )
                 lower_bound, upper_bound = time_interval
                 cstrs = [
+                    task._scheduled,
                     task._start >= lower_bound,
                     task._end <= upper_bound,
                     z3.Not(
@@ -465,11 +467,23 @@ class ScheduleNTasksInTimeIntervals(TaskConstraint):
                 asst = z3.Implies(task_in_time_interval, z3.And(cstrs))
                 self.set_z3_assertions(asst)
                 bools_for_this_task.append(task_in_time_interval)
+                lies_in_an_interval.append(
+                    z3.And(
+                        task._scheduled,
+                        task._start >= lower_bound,
+                        task._end <= upper_bound,
+                    )
+                )
             # only one maximum bool to True from the previous possibilities
             asst_tsk = z3.PbLe(
                 [(scheduled, True) for scheduled in bools_for_this_task], 1
             )
             self.set_z3_assertions(asst_tsk)
+            # a scheduled task that lies inside one of the intervals has to be counted,
+            # otherwise the "max" and "exact" kinds do not bound the number of tasks
+            self.set_z3_assertions(
+                z3.Implies(z3.Or(lies_in_an_interval), z3.Or(bools_for_this_task))
+            )
             all_bools.extend(bools_for_this_task)
 
         # we also have to exclude all the other cases, where start or end can be between two intervals
